@@ -164,10 +164,14 @@ def verify_function(contract: Contract, specs=None, variant=None) -> FunctionRep
             st.vars[a.vararg.arg] = make_input(types.get(a.vararg.arg, "list"), a.vararg.arg, st, ex)
         if a.kwarg is not None:
             st.vars[a.kwarg.arg] = make_input("dict", a.kwarg.arg, st, ex)
+        region_locals = set()
         if contract.opts.get("start_at_loop") is not None or contract.opts.get("region_for_target") is not None:
             for nme, kind in types.items():
                 if nme not in st.vars:
                     st.vars[nme] = make_input(kind, nme, st, ex)
+                    # a local of the enclosing function that the region may rebind: in a postcondition its name denotes the value at
+                    # the region's exit (`old.<name>` the value at entry), unlike a parameter, which denotes the object passed in
+                    region_locals.add(nme)
         # declared shapes of nested input structure:  {"context.recursion_depth": "int", ...}
         shape = dict(contract.opts.get("shape", {}))
         shape.update(vopts.get("shape", {}))
@@ -275,7 +279,7 @@ def verify_function(contract: Contract, specs=None, variant=None) -> FunctionRep
                 for cl in contract.ensures_:
                     if getattr(cl, "only_exit", None) and not base.startswith(cl.only_exit):
                         continue
-                    g = ex.eval_clause(cl, _post_bound(cl, params_bound, extra, s2), s2, ex.entry_pre, extra)
+                    g = ex.eval_clause(cl, _post_bound(cl, params_bound, extra, s2, region_locals), s2, ex.entry_pre, extra)
                     rep.obligations.append(Obligation(f"{site}::post:{cl.name}@{exit_id}", "post", list(s2.pc), g,
                                                       {"exit": exit_id, "clause": cl.name, "line": ln, "props": cl.props}, aux=cl.aux))
             else:
@@ -294,7 +298,7 @@ def verify_function(contract: Contract, specs=None, variant=None) -> FunctionRep
                 for gname_ in ex.ghost_names():
                     extra[gname_] = s2.ghost.get(gname_, Val("l", sym.EMPTY_LIST))
                 for cl in contract.raises_:
-                    g = ex.eval_clause(cl, _post_bound(cl, params_bound, extra, s2), s2, ex.entry_pre, extra)
+                    g = ex.eval_clause(cl, _post_bound(cl, params_bound, extra, s2, region_locals), s2, ex.entry_pre, extra)
                     rep.obligations.append(Obligation(f"{site}::raises:{cl.name}@{exit_id}", "raises", list(s2.pc), g, dict(info, clause=cl.name, props=cl.props), aux=cl.aux))
         all_pcs = [z3.And(*o.state.pc) if o.state.pc else z3.BoolVal(True) for o in outs]
         if all_pcs:
@@ -316,13 +320,13 @@ def verify_function(contract: Contract, specs=None, variant=None) -> FunctionRep
     return rep
 
 
-def _post_bound(cl, params_bound, extra, s2=None):
+def _post_bound(cl, params_bound, extra, s2=None, region_locals=()):
     """clause parameters: the function's parameters denote the objects passed in (entry slots, post heap); any other name is a local
     of the function evaluated at the exit (used by statement / region contracts)"""
     if s2 is None:
         return params_bound
     b = {k: v for k, v in s2.vars.items() if not k.startswith("__")}
-    b.update(params_bound)
+    b.update({k: v for k, v in params_bound.items() if k not in region_locals or k not in s2.vars})
     if getattr(cl, "kind", "") in ("ensures", "raises"):
         for p_ in cl.params:
             if p_ in s2.vars and p_ in getattr(cl, "_locals_now", ()):
